@@ -372,6 +372,7 @@ class Zeroconf(QuietLogger):
         """Registers service information to the network with a default TTL.
         Zeroconf will then respond to requests for information for that
         service."""
+        info.set_server_if_missing()
         previous = self.registry.async_get_info_name(info.key)
         self.registry.async_update(info)
         # Answers that were queued while the previous description was current
